@@ -2,6 +2,7 @@ package gvc
 
 import (
 	"fmt"
+	"go/ast"
 	"os"
 	"go/token"
 	"go/types"
@@ -205,6 +206,12 @@ func (fr *Frame) cloneVals() *Frame {
 	for k, v := range fr.vals {
 		n.vals[k] = v
 	}
+	if fr.names != nil {
+		n.names = make(map[string]namedLocal, len(fr.names))
+		for k, v := range fr.names {
+			n.names[k] = v
+		}
+	}
 	n.closures = make(map[ssa.Value]*closureInfo, len(fr.closures))
 	for k, v := range fr.closures {
 		n.closures[k] = v
@@ -265,6 +272,15 @@ func isNumeral(s string) bool {
 func (vc *VC) instr(st *State, fr *Frame, in ssa.Instruction, k func(*State, *Frame), done *bool) {
 	switch x := in.(type) {
 	case *ssa.DebugRef:
+		if id, ok := x.Expr.(*ast.Ident); ok && fr.top {
+			if fr.names == nil {
+				fr.names = map[string]namedLocal{}
+			}
+			if _, isFn := x.X.(*ssa.Function); !isFn {
+				ty := x.X.Type()
+				fr.names[id.Name] = namedLocal{v: vc.val(st, fr, x.X), ty: ty, isAddr: x.IsAddr}
+			}
+		}
 	case *ssa.Alloc:
 		elem := x.Type().(*types.Pointer).Elem()
 		a := vc.alloc(st, "a")
